@@ -21,6 +21,7 @@ pub fn spec_slice(bytes: &[u8], be: bool, ti: TypeInfo) -> Expect<Z> {
 
 fn one<T: StrApi>(config: &str, bytes: &[u8], l: &mut Local) {
     let ti = T::ti();
+    l.enter(config, "from_be_slice", || vec![bhex(bytes)], bytes.len() as u64);
     for (op, be) in [("from_be_slice", true), ("from_le_slice", false)] {
         let e = spec_slice(bytes, be, ti);
         let o = match std::panic::catch_unwind(std::panic::AssertUnwindSafe(|| {
